@@ -2139,3 +2139,20 @@ func (f *Frame) guardCheck(fa *ssa.FieldAddr, st types.Type, fl *types.Var, in s
 	what := "access to " + shortTypeKey(st) + "." + fl.Name() + " without holding " + g.LockField
 	f.addSiteW(g.Prop, "guarded."+shortTypeKey(st)+"."+fl.Name(), "guarded-by", "field "+fl.Name()+" is guarded by "+g.LockField, f.siteSigInstr(in), sAnd(f.cur.R, sNot(held)), what)
 }
+
+// addCover registers a reachability obligation: the query is expected to be satisfiable (the annotated call can be
+// reached with the condition true). An unsatisfiable query means the path was removed.
+func (f *Frame) addCover(prop, label, src, sig, goal string) {
+	tr := f.tr
+	if prop == "" {
+		prop = "C00"
+	}
+	name := prop + "." + tr.topShort + "." + label
+	o := tr.obls[name]
+	if o == nil {
+		o = &Obl{Prop: prop, Func: tr.topShort, Label: label, Kind: "cover", Src: src, tr: tr}
+		tr.obls[name] = o
+		tr.oblOrder = append(tr.oblOrder, name)
+	}
+	o.Sites = append(o.Sites, &Site{Sig: sig, Goal: goal, Expect: "sat", What: "must be reachable"})
+}
